@@ -18,9 +18,11 @@ func init() {
 			"(R3) duplicate merging: logLine.Equal holds only for lines without tracer that agree in message, file, line and level (truth table), the writer writes the held line on every path before it replaces it, resets the duplicate count with it (the repetition count is 0 whenever the held line is dropped or replaced, also at the start of every batch), and writes the last held line; " +
 			"(R4) all shutdown arms of the writer drain the buffer (finalizeWriting) before returning, finalizeWriting writes every line it dequeues, the writer is added to the shutdown wait group before its goroutine is launched (not inside it), Shutdown closes the signal and every exit of Shutdown - also for a second caller - has waited for the writer. " +
 			"(R5) lock pairing over the functions of package(s) log: " + lockRuleText + ". " +
+			"(R6) sibling table of the 24 level wrappers (Trace..Criticalf, plain and tracer methods): every severity constant a wrapper passes on is the level it is named after, the plain path logs exactly behind fastcheck of that level, and the tracer path hands the line to the tracer. " +
 			"NOT decided: order under real producer interleavings, timing of the drain window.",
 		Rules: []ruleFn{c20R1, c20R2, c20R3, c20R4,
-			lockRuleFor("C20-R5", 4, []string{"log"}, []string{}, map[string]string{})},
+			lockRuleFor("C20-R5", 4, []string{"log"}, []string{}, map[string]string{}),
+			c20R6},
 	})
 }
 
@@ -740,5 +742,78 @@ func c20WaitGroupArmed(c *Ctx, r *Report, rule string) {
 	}
 	if n == 0 {
 		r.Undecided(rule, "log / writer launch", "no goroutine that signals the shutdown wait group is launched")
+	}
+}
+
+// c20R6: the wrappers agree with their names.
+func c20R6(c *Ctx, r *Report) {
+	const rule = "C20-R6"
+	r.SetFloor(rule, 24)
+	names := []string{"Trace", "Debug", "Info", "Warning", "Error", "Critical"}
+	for _, fn := range c.FuncsIn("log") {
+		if fn.Parent() != nil || fn.Blocks == nil {
+			continue
+		}
+		base := strings.TrimSuffix(fn.Name(), "f")
+		lvlName := ""
+		for _, n := range names {
+			if base == n {
+				lvlName = n + "Level"
+			}
+		}
+		if lvlName == "" {
+			continue
+		}
+		want, ok := c.constVal("log", lvlName)
+		if !ok {
+			r.Undecided(rule, "log."+lvlName, "constant missing")
+			continue
+		}
+		var bad []string
+		nLevels := 0
+		var logCalls, tracerCalls []ssa.CallInstruction
+		eachInstr(fn, func(in ssa.Instruction) {
+			ci, ok := in.(ssa.CallInstruction)
+			if !ok {
+				return
+			}
+			cn := calleeName(ci.Common())
+			if cn != "log.fastcheck" && cn != "log.log" && cn != "log.ContextTracer.log" {
+				return
+			}
+			if cn == "log.log" {
+				logCalls = append(logCalls, ci)
+			}
+			if cn == "log.ContextTracer.log" {
+				tracerCalls = append(tracerCalls, ci)
+			}
+			for _, a := range ci.Common().Args {
+				if nt, isNamed := a.Type().(*types.Named); !isNamed || nt.Obj().Name() != "Severity" {
+					continue
+				}
+				nLevels++
+				v, isC := constInt(a)
+				if !isC || v != want {
+					bad = append(bad, fmt.Sprintf("%s is called with level %s at %s", cn, valStr(a), c.Pos(in.Pos())))
+				}
+			}
+		})
+		cons := fnKey(fn) + " / passes on " + lvlName
+		if nLevels == 0 {
+			r.Undecided(rule, cons, "no severity argument found")
+			continue
+		}
+		r.Check(len(bad) == 0, rule, cons, fmt.Sprintf("%d severity arguments, all %s", nLevels, lvlName), "the wrapper logs with another level than the one it is named after ("+strings.Join(firstN(bad, 2), "; ")+"): messages are filtered and labelled with the wrong level")
+		// plain path: log() only behind fastcheck(), and fastcheck true leads to log()
+		fc := callGuard("fastcheck()==true", true, "log.fastcheck")
+		for _, lc := range logCalls {
+			c.RequireGuards(r, rule, fnKey(fn)+" / log() behind fastcheck", fn, lc, fc)
+		}
+		if len(logCalls) == 0 {
+			r.Bad(rule, fnKey(fn)+" / message is logged", "the wrapper never calls log(): its messages are lost")
+		}
+		if fn.Signature.Recv() != nil && len(tracerCalls) == 0 {
+			r.Bad(rule, fnKey(fn)+" / message is added to the tracer", "the tracer method never adds the line to the tracer")
+		}
 	}
 }
